@@ -604,3 +604,19 @@ O(id="C09.msg_bytes_only", props=["C09", "C06"], harness="harness/c09_parse_boun
   stubs=["cJSON_ParseWithOpts / cJSON_ParseWithLengthOpts: contract stubs reading what the documented contract lets the library read",
          "log_peer_err: empty; handlers: unreachable (the stub reports a parse error)"],
   assumes=[], bounds="messages <= 6 bytes", also_for=["C06"])
+
+# ------------------------------------------------------------------------------------------------ C05 end of a WebSocket connection
+_scn_wsclose = dict(_scn, harness="harness/scn_wsclose.c",
+                    units=_PROTO_UNITS + ["src/websocket_peer.c", "src/websocket.c", "src/compression.c", "src/utf8_checker.c", "src/linux/jet_endian.c", "src/base64.c"],
+                    unwindset=dict(_scn["unwindset"], **{"verif_router_snprintf.0": 10, "verif_router_snprintf.1": 5, "harness_ws_end.0": 12, "cjet_is_byte_sequence_valid.0": 4}),
+                    stubs=_SCN_STUBS + ["buffered reader of the connection: close/writev/read_* flag any use after close; the http_connection object is really freed by free_connection",
+                                        "snprintf in router.c: stand-in for the two id formats"])
+for _c, _nm in ((0, "fin_in_frame_header"), (1, "socket_error"), (2, "daemon_closes_peer"), (3, "client_close_frame")):
+    O(id="C05.ws_end_" + _nm, props=["C05", "C07", "C12"], entry="harness_ws_end", defines=["ENDCASE=%d" % _c],
+      functions=["handle_error", "websocket_close", "free_websocket_peer_callback", "free_websocket_peer_on_error", "peer_close_websocket_peer", "close_callback",
+                 "free_websocket_peer", "free_peer_resources", "remove_routing_info_from_peer", "remove_peer_from_routing_table", "clear_routing_entry",
+                 "ws_send_message", "send_frame", "remove_all_fetchers_from_peer", "remove_all_elements_from_peer"],
+      symbolic="state value", assumes=["set-up requests succeed"],
+      bounds="websocket peer P owning a state (B subscribed), holding a fetch, caller of a request to O and owner of a request from B; connection ends by %s" % _nm,
+      **_scn_wsclose)
+_also(["C05.ws_end_"], ["C05", "C07"])
